@@ -7,6 +7,7 @@ open Z.HashExec Z.Ref
 structure St where
   m : List KV := []
   keys : List Bytes := []     -- client keys (with namespace) seen by writes, for `dump`
+  pend : List (List Bytes) := []   -- writes queued in the open apply event (`w <ts> 0 …`), in log order
   deriving Inhabited
 
 def ns : Bytes := "default:".toUTF8.toList
@@ -49,7 +50,7 @@ def write (st : St) (args : List Bytes) : St × String :=
     | some (table, k) =>
       let F := realFns table
       let cmd := String.fromUTF8! (ByteArray.mk name.toArray) |>.toLower
-      let st' (m : List KV) : St := { m := m, keys := insertKey st.keys key }
+      let st' (m : List KV) : St := { st with m := m, keys := insertKey st.keys key }
       match cmd, rest with
       | "hset", [f, v] => (st' (hset F st.m k f v), s!"int:{hsetReply F st.m k f}")
       | "hsetnx", [f, v] =>
@@ -66,6 +67,12 @@ def write (st : St) (args : List Bytes) : St × String :=
         (st' (fs.foldl (fun m f => hdel F m k f) st.m), s!"int:{n}")
       | "hclear", [] =>
         if hlen F st.m k == 0 then (st' st.m, "int:0") else (st' (hclear F st.m k), "int:1")
+      | "hincrby", [f, dtxt] =>
+        let r := hincrbyCmd F st.m k f dtxt
+        (st' r.1, match r.2 with
+          | .int n => s!"int:{n}"
+          | .err .notint => "err:notint"
+          | .err .numrange => "err:numrange")
       | _, _ => (st, "bad-op")
   | _ => (st, "bad-op")
 
@@ -113,9 +120,17 @@ def step (st : St) (line : String) : St × String :=
   | ["inv"] => (st, "ok")
   | ["dump"] => (st, dump st)
   | "w" :: _ts :: b :: hexargs =>
-    if b != "1" then (st, "bad-op") else
+    -- hash writes have no leader-side answer: a well-formed one is always `queued`; `0` leaves the apply event open,
+    -- `1` applies every entry queued since the last boundary, in log order, and answers their replies
     match hexargs.mapM unhex with
-    | some args => let (st', r) := write st args; (st', if r == "bad-op" then r else "queued => " ++ r)
+    | some args =>
+      if (write st args).2 == "bad-op" then (st, "bad-op")
+      else if b == "0" then ({ st with pend := st.pend ++ [args] }, "queued")
+      else if b == "1" then
+        let (st', rs) := (st.pend ++ [args]).foldl
+          (fun (acc : St × List String) a => let (s', r) := write acc.1 a; (s', acc.2 ++ [r])) (st, [])
+        ({ st' with pend := [] }, "queued => " ++ " | ".intercalate rs)
+      else (st, "bad-op")
     | none => (st, "bad-op")
   | "r" :: hexargs =>
     match hexargs.mapM unhex with
